@@ -13,7 +13,9 @@ EXTENDS Naturals, Sequences, FiniteSets, TLC
 CONSTANT MaxDev
 Kinds == {"gen", "roa", "aspa", "mft"}
 \* total size of the signed attributes: below 128, around 128 and around 256 bytes (long-form DER lengths)
-Sizes == {"small", "s127", "s128", "s129", "s255", "s256", "s257"}
+\* ... and 65535 bytes, the largest set the library captures (larger ones are refused by a documented limit; the statement's
+\* "whatever their total size" is read within it)
+Sizes == {"small", "s127", "s128", "s129", "s255", "s256", "s257", "s65535"}
 FacetValues == [
     attrs  |-> {"ok", "missing_ct", "missing_md", "missing_st", "dup_ct", "dup_md", "dup_st", "unknown"},
     digest |-> {"ok", "bad", "short", "long", "empty"},     \* wrong octet; a proper prefix; the digest plus one octet; no octets
